@@ -19,6 +19,9 @@ open PwVerif
 inductive Target
   | name (s : String)
   | disabled (k : String)
+  /-- a raw `None` written into the LIVE bidict by an in-place edit (`wf.inputs_map[k] = None`) or
+  carried by an assigned `bidict`; the property getter replaces it by `disabled k` on the next read -/
+  | rawNone
   deriving DecidableEq, Repr
 
 /-- what the user assigns: a `dict` key ↦ `str | None` (in insertion order) -/
@@ -31,6 +34,8 @@ def dedupNones (m : UserMap) : KeyMap :=
   m.map fun kv => (kv.1, match kv.2 with | some s => Target.name s | none => Target.disabled kv.1)
 
 inductive Res | ok | dupErr | typeErr | connErr | valueErr | refused
+  /-- `KeyError` / `bidict.KeyAndValueDuplicationError` of an in-place edit of the live map -/
+  | keyErr | kvDupErr
   deriving DecidableEq, Repr
 
 def ofConn : Conn.Res → Res
@@ -47,6 +52,153 @@ def setMap (old : Option KeyMap) (new : Option UserMap) : Option KeyMap × Res :
   | some m =>
     let m' := dedupNones m
     if bidictOk m' then (some m', .ok) else (old, .dupErr)
+
+/-- the setter given a `bidict`: `isinstance(new_map, dict)` is false (a `bidict` is a
+`MutableMapping`, not a `dict`), so nothing is de-duplicated at assignment time and
+`bidict(new_map)` stores a fresh COPY that may carry (at most one) raw `None`.  A "bidict" with
+two equal values cannot have been built by the user in the first place (`dupErr` there). -/
+def Target.ofUser : Option String → Target
+  | some s => .name s
+  | none => .rawNone
+
+def setMapB (old : Option KeyMap) (new : UserMap) : Option KeyMap × Res :=
+  let m' := new.map fun kv => (kv.1, Target.ofUser kv.2)
+  if bidictOk m' then (some m', .ok) else (old, .dupErr)
+
+/-! ## The live map object
+
+`Workflow.inputs_map` (the property getter) returns the STORED `bidict` itself, after
+`_deduplicate_nones(self._inputs_map)` has replaced every raw `None` in it, in place.  The user
+can therefore edit the map entry by entry; the operations below transcribe `bidict` 0.23
+(`BidictBase._dedup` / `_write` / `_update`, `MutableBidict`) on an insertion-ordered list:
+`on_dup = OnDup(key=DROP_OLD, val=RAISE)` for `m[k] = v`, `update`, `setdefault` and for
+`m.inverse[v] = k` (where the roles of key and value are swapped), `ON_DUP_DROP_OLD` for
+`forceput`. -/
+
+/-- `m.inverse.get(t)`: the key that carries the value `t` -/
+def keyOf (m : KeyMap) (t : Target) : Option String := (m.find? fun e => e.2 == t).map Prod.fst
+
+/-- `fwdm[k] = t` for a key that is present: the entry keeps its position -/
+def setAt (m : KeyMap) (k : String) (t : Target) : KeyMap :=
+  m.map fun e => if e.1 == k then (e.1, t) else e
+
+/-- `del fwdm[k]` -/
+def eraseKey (m : KeyMap) (k : String) : KeyMap := m.filter fun e => !(e.1 == k)
+
+/-- `m[k] = t` (`put` with key=DROP_OLD, val=RAISE): the same item again is a no-op; a value
+that sits under another key raises (`KeyAndValueDuplicationError` if `k` is present too,
+`ValueDuplicationError` otherwise) and nothing is written; a present key gets the new value in
+place; a fresh key is appended. -/
+def bput (m : KeyMap) (k : String) (t : Target) : KeyMap × Res :=
+  match m.lookup k, keyOf m t with
+  | some _, some k' => if k' = k then (m, .ok) else (m, .kvDupErr)
+  | some _, none => (setAt m k t, .ok)
+  | none, some _ => (m, .dupErr)
+  | none, none => (m ++ [(k, t)], .ok)
+
+/-- `m.forceput(k, t)` (DROP_OLD for both): whatever item holds `t` under another key is dropped.
+(`_write` sets `fwdm[k] = t` first and deletes the old key afterwards; the resulting list is
+the same.) -/
+def bforce (m : KeyMap) (k : String) (t : Target) : KeyMap :=
+  match m.lookup k, keyOf m t with
+  | some _, some k' => if k' = k then m else setAt (eraseKey m k') k t
+  | some _, none => setAt m k t
+  | none, some k' => eraseKey m k' ++ [(k, t)]
+  | none, none => m ++ [(k, t)]
+
+/-- `m.inverse[t] = k`: on the inverse the *name* is the key (DROP_OLD: the item that carried
+`t` so far is dropped, `k ↦ t` is appended) and the canonical key is the value (RAISE: a `k`
+that is present with another value raises). -/
+def binvPut (m : KeyMap) (t : Target) (k : String) : KeyMap × Res :=
+  match keyOf m t, m.lookup k with
+  | some k', some _ => if k' = k then (m, .ok) else (m, .kvDupErr)
+  | some k', none => (eraseKey m k' ++ [(k, t)], .ok)
+  | none, some _ => (m, .dupErr)
+  | none, none => (m ++ [(k, t)], .ok)
+
+/-- the item loop of `_update` -/
+def bputAll : KeyMap → List (String × Target) → KeyMap × Res
+  | m, [] => (m, .ok)
+  | m, kv :: rest =>
+    match bput m kv.1 kv.2 with
+    | (m', .ok) => bputAll m' rest
+    | (m', r) => (m', r)
+
+/-- `m.update({...})`: all items or none (`rollback` is on because `RAISE ∈ on_dup`) -/
+def bupdate (m : KeyMap) (kvs : List (String × Target)) : KeyMap × Res :=
+  match bputAll m kvs with
+  | (m', .ok) => (m', .ok)
+  | (_, r) => (m, r)
+
+/-- `_deduplicate_nones(some_map)` of the getter, run on the live `bidict`:
+`for k, v in some_map.items(): if v is None: some_map[k] = (None, f"{k} disabled")`.
+An exception of the item assignment escapes the getter (and the panel access). -/
+def normalizeFrom (m : KeyMap) : List (String × Target) → KeyMap × Res
+  | [] => (m, .ok)
+  | (k, .rawNone) :: rest =>
+    match bput m k (.disabled k) with
+    | (m', .ok) => normalizeFrom m' rest
+    | (m', r) => (m', r)
+  | _ :: rest => normalizeFrom m rest
+
+def normalize (m : KeyMap) : KeyMap × Res := normalizeFrom m m
+
+/-- the getter `Workflow.inputs_map` / `.outputs_map` as a state change of the stored object -/
+def readMap : Option KeyMap → Option KeyMap × Res
+  | none => (none, .ok)
+  | some m => let r := normalize m; (some r.1, r.2)
+
+/-- in-place edits of the live object -/
+inductive Edit
+  /-- `m[k] = v` -/
+  | put (k : String) (v : Option String)
+  /-- `del m[k]` / `m.pop(k)` -/
+  | del (k : String)
+  /-- `m.pop(k, None)` -/
+  | popd (k : String)
+  /-- `m.update({...})` / `m |= {...}` -/
+  | update (kvs : UserMap)
+  /-- `m.forceput(k, v)` -/
+  | force (k : String) (v : Option String)
+  /-- `m.inverse[v] = k` -/
+  | invPut (v : Option String) (k : String)
+  /-- `del m.inverse[v]` -/
+  | invDel (v : Option String)
+  | clear
+  | popitem
+  /-- `m.setdefault(k, v)` -/
+  | setdefault (k : String) (v : Option String)
+  deriving Repr
+
+def editMap (m : KeyMap) : Edit → KeyMap × Res
+  | .put k v => bput m k (.ofUser v)
+  | .del k => if (m.lookup k).isSome then (eraseKey m k, .ok) else (m, .keyErr)
+  | .popd k => (eraseKey m k, .ok)
+  | .update kvs => bupdate m (kvs.map fun kv => (kv.1, Target.ofUser kv.2))
+  | .force k v => (bforce m k (.ofUser v), .ok)
+  | .invPut v k => binvPut m (.ofUser v) k
+  | .invDel v =>
+    match keyOf m (.ofUser v) with
+    | some k' => (eraseKey m k', .ok)
+    | none => (m, .keyErr)
+  | .clear => ([], .ok)
+  | .popitem => if m.isEmpty then (m, .keyErr) else (m.dropLast, .ok)
+  | .setdefault k v => if (m.lookup k).isSome then (m, .ok) else bput m k (.ofUser v)
+
+/-- the edit applied to what the getter returned; for a stored `None` the getter returns `None`:
+item assignment/deletion on it is a `TypeError`, a method call an `AttributeError` -/
+def editStored (m : Option KeyMap) (e : Edit) : Option KeyMap × Res :=
+  match m with
+  | none => (none, match e with | .put _ _ => .typeErr | .del _ => .typeErr | _ => .refused)
+  | some m => let r := editMap m e; (some r.1, r.2)
+
+/-- what the user reads off a stored value: a name, or `None` = hidden -/
+def Target.view : Target → Option String
+  | .name s => some s
+  | _ => none
+
+/-- the map as the user sees it (`None` meaning hidden) -/
+def userView (m : KeyMap) : UserMap := m.map fun e => (e.1, e.2.view)
 
 /-! ## `_build_io` -/
 
@@ -70,6 +222,7 @@ def stepKey (m : KeyMap) (connected : Nat → Bool) (ch : String × Nat) : Optio
   match m.lookup ch.1 with
   | some (.name n) => some n
   | some (.disabled _) => none
+  | some .rawNone => none            -- `isinstance(None, str)` is false as well: nothing is assigned
   | none => if connected ch.2 then none else some ch.1
 
 def hasKey (io : Panel) (k : String) : Bool := io.any (fun e => e.1 == k)
@@ -97,10 +250,12 @@ def exposedAs (m : KeyMap) (ch : String × Nat) : Option String :=
   | some (.name n) => some n
   | _ => none
 
-/-- explicitly hidden: the map sends the channel's canonical key to the disabled marker -/
+/-- explicitly hidden: the map sends the channel's canonical key to `None` (stored as the
+disabled marker, or still raw when the live map was edited in place and not read since) -/
 def isHidden (m : KeyMap) (ch : String × Nat) : Bool :=
   match m.lookup ch.1 with
   | some (.disabled _) => true
+  | some .rawNone => true
   | _ => false
 
 /-- (open ∪ explicitly exposed) \ explicitly hidden -/
@@ -274,6 +429,13 @@ inductive Op
   | connectVia (s : Side) (k : String) (b : Nat)
   /-- anything else that happens to values (running children, fetching, …) -/
   | setVal (c : Nat) (v : Val)
+  /-- `wf.inputs_map = bidict(...)` (no clean-up at assignment time, a copy is stored) -/
+  | setMapB (s : Side) (m : UserMap)
+  /-- the property getter `wf.inputs_map` / `wf.outputs_map` (also called by every access of
+  `wf.inputs` / `wf.outputs`): cleans the stored object in place -/
+  | read (s : Side)
+  /-- an in-place edit of the live object the getter returned (no clean-up before or after) -/
+  | edit (s : Side) (e : Edit)
   deriving Repr
 
 def step (w : W) : Op → W × Res
@@ -289,6 +451,18 @@ def step (w : W) : Op → W × Res
   | .assign s k v => assignVia w s k v
   | .connectVia s k b => connectVia w s k b
   | .setVal c v => ({ w with val := updF w.val c v }, .ok)
+  | .setMapB .inputs m => let r := setMapB w.imap m; ({ w with imap := r.1 }, r.2)
+  | .setMapB .outputs m => let r := setMapB w.omap m; ({ w with omap := r.1 }, r.2)
+  | .read .inputs => let r := readMap w.imap; ({ w with imap := r.1 }, r.2)
+  | .read .outputs => let r := readMap w.omap; ({ w with omap := r.1 }, r.2)
+  | .edit .inputs e => let r := editStored w.imap e; ({ w with imap := r.1 }, r.2)
+  | .edit .outputs e => let r := editStored w.omap e; ({ w with omap := r.1 }, r.2)
+
+/-- `wf.inputs` / `wf.outputs` as the code runs it: the getter cleans the stored map (state
+change; its exception escapes), then `_build_io` reads it -/
+def W.access (w : W) (s : Side) : W × Option Panel :=
+  let r := step w (.read s)
+  (r.1, if r.2 = .ok then r.1.panel s else none)
 
 def run (w : W) (ops : List Op) : W := ops.foldl (fun w o => (step w o).1) w
 
